@@ -711,6 +711,17 @@ def monitor(case, iout, prop):
                 if idx < len(e) and d["deref"] != "%d:%d" % e[idx]: fail(i, "iterator dereferences %s, element %d is %s" % (d["deref"], idx, e[idx]))
                 if idx + 1 < len(e) and d["rt"] != str(e[idx][0]): fail(i, "++ then -- is not the identity")
                 if 0 < idx < len(e) and d["prev"] != str(e[idx - 1][0]): fail(i, "-- does not reach the previous element")
+                if idx < len(e) and d.get("walk", "-") != "-":
+                    wi = idx; want = []
+                    for op in (-1, -1, 1, 1, 1, -1):
+                        if op < 0:
+                            if wi == 0: continue
+                            wi -= 1
+                        else:
+                            if wi + 1 >= len(e): continue
+                            wi += 1
+                        want.append("%d/%d" % (wi, e[wi][0]))
+                    if d["walk"] != ",".join(want): fail(i, "one iterator walked -- -- ++ ++ ++ -- from index %d visits %s (index/element), the elements at those indices are %s" % (idx, d["walk"], ",".join(want)))
             elif c == "V":
                 r, q, bs = a[0], a[1], a[2]; e = flat(old[r])
                 if flat(R[q]) != [e[k] for k in a[3:]]: fail(i, "toDataset(subset(view)) holds other elements")
